@@ -69,6 +69,8 @@ type hist struct {
 	blocksInEpoch int
 	blockNo       int
 	nReorgs       int
+	nFailed       int
+	lostOnce      map[common.Hash]bool
 	diag          tr.M
 	floods        int
 	forced        []*txRec       // when non-nil: exactly these submissions for the coming block
@@ -95,6 +97,7 @@ type scenCfg struct {
 	graph      [][2]int // delegation graph scenario (edges delegator -> delegatee over keys 1..4), exported by TLC from EpochLoop.tla
 	heavy      bool
 	reorgs     bool
+	faults     bool // now and then a replica's insertion of a proposal FAILS (content-store fault) and the round is lost
 	replays    bool
 	sched      schedule
 	blocks     int
@@ -119,6 +122,7 @@ func newHist(seed int64, id int, cfg *scenCfg, out *tr.W) *hist {
 		nkeys = 24 + 320
 	}
 	w := sim.NewWorld(seed*1000+int64(id), nkeys)
+	w.IpfsFaults = cfg.faults
 	w.Cons.StatusSwitchRange = 5
 	w.Cons.DelegationSwitchRange = 7
 	w.Cons.DiscriminationSwitchRange = 6
@@ -845,6 +849,16 @@ func (h *hist) block() bool {
 	if h.cfg.replays && !empty && h.rnd.Intn(3) == 0 {
 		h.crafted(prop, blk, height)
 	}
+	if h.cfg.faults && !empty && len(blk.Body.Transactions) > 0 && blk.Header.Flags()&(types.ValidationFinished|types.FlipLotteryStarted|types.ShortSessionStarted|types.LongSessionStarted|types.AfterLongSessionStarted) == 0 && (h.rnd.Intn(4) == 0 || h.changesIdentities(blk)) {
+		if h.failedInsert(data, height) {
+			// the round is lost (the proposal gets no certificate): the network goes on with the round's empty block; the
+			// transactions stay in the pools
+			blk = prop.n.Chain.GenerateEmptyBlock()
+			data = sim.Encode(blk)
+			empty = true
+			subs = nil
+		}
+	}
 	// an alternative block for the same height (for the speculative replica)
 	var other []byte
 	if len(el) > 1 {
@@ -1002,6 +1016,58 @@ func (h *hist) block() bool {
 	if h.cfg.reorgs && height > 4 && h.rnd.Intn(5) == 0 {
 		h.reorg(height)
 	}
+	return true
+}
+
+// changesIdentities: the block carries a transaction that removes an identity (its identity diff is not empty) and was not
+// part of a lost round before
+func (h *hist) changesIdentities(blk *types.Block) bool {
+	if h.lostOnce == nil {
+		h.lostOnce = map[common.Hash]bool{}
+	}
+	hit := false
+	for _, tx := range blk.Body.Transactions {
+		if (tx.Type == types.KillTx || tx.Type == types.KillInviteeTx || tx.Type == types.KillDelegatorTx) && !h.lostOnce[tx.Hash()] {
+			h.lostOnce[tx.Hash()] = true
+			hit = true
+		}
+	}
+	return hit
+}
+
+// failedInsert: one replica tries to insert the proposal while its content store is failing: the insertion must fail as a
+// whole and leave nothing behind (in particular no identity diff that the node would serve for a block it never inserted).
+func (h *hist) failedInsert(data []byte, height uint64) bool {
+	var cands []*replica
+	for _, r := range h.reps {
+		if _, ok := r.n.Ipfs.(*sim.FaultIpfs); ok && r.n.Chain.Head.Height()+1 == height {
+			cands = append(cands, r)
+		}
+	}
+	if len(cands) == 0 {
+		return false
+	}
+	rf := cands[h.rnd.Intn(len(cands))]
+	f := rf.n.Ipfs.(*sim.FaultIpfs)
+	f.Arm()
+	var err error
+	h.inZone(rf, func() { err = rf.n.Chain.AddBlock(sim.Decode(data), nil, collector.NewStatsCollector()) })
+	f.Disarm()
+	if rf.n.Chain.Head.Height()+1 != height {
+		panic(fmt.Sprintf("an insertion with a failing content store moved the head of %s (err=%v)", rf.name, err))
+	}
+	h.nFailed++
+	// AddBlock has committed the state trees of the block before the insertion failed and does not take that back: until it is
+	// restarted the node refuses every block of this height (observation outside the listed properties, see DESIGN.md).  The
+	// operator restarts the node: start-up drops the tree versions above the head.
+	n := rf.n.Restart()
+	if n.BootErr != nil {
+		panic("restart after a failed insertion: " + n.BootErr.Error())
+	}
+	rf.n = n
+	h.attachCeremony(rf)
+	h.props[rf.n.Key] = rf
+	h.out.Emit(tr.M{"ev": "FailedInsert", "hid": h.id, "h": height, "replica": rf.name, "err": errClass(err), "restarted": true})
 	return true
 }
 
@@ -1354,6 +1420,7 @@ func main() {
 	filterFile := flag.String("filter", "", "filter scenarios exported by TLC from Filter.tla (json lines)")
 	gasFile := flag.String("gas", "", "gas-boundary transaction lists exported by TLC from Gas.tla (json lines)")
 	fsync := flag.Bool("fsync", false, "add a replica that falls behind and catches up through the real full-sync code")
+	faults := flag.Bool("faults", false, "now and then a replica's insertion of a proposal fails (content-store fault) and the round is lost")
 	reorgs := flag.Bool("reorgs", false, "the network switches forks now and then (real ResetTo on every replica)")
 	flag.Parse()
 	var scheds []schedule
@@ -1437,7 +1504,7 @@ func main() {
 		if *only >= 0 && i != *only {
 			continue
 		}
-		cfg := &scenCfg{blocks: *nb, epochs: *epochs, nProposers: 6, big: *big && i == 0, replays: *replays, heavy: *heavy, reorgs: *reorgs, fsync: *fsync}
+		cfg := &scenCfg{blocks: *nb, epochs: *epochs, nProposers: 6, big: *big && i == 0, replays: *replays, heavy: *heavy, reorgs: *reorgs, fsync: *fsync, faults: *faults}
 		if len(scheds) > 0 {
 			cfg.sched = scheds[i%len(scheds)]
 		}
